@@ -123,17 +123,17 @@ DEFAULT_WEIGHTS = {
 
 PROP_WEIGHTS = {
     "C01": {},
-    "C02": {"get": 3, "propfind": 3, "multiget": 3, "query": 2, "sync": 2, "proppatch": 4, "put_over": 12},
+    "C02": {"partial": 3, "get": 3, "propfind": 3, "multiget": 3, "query": 2, "sync": 2, "proppatch": 4, "put_over": 12},
     "C03": {"put_cond": 14, "delete_cond": 8, "get_cond": 6, "put_over": 10, "post": 1, "mkcol": 0.5, "mkcalendar": 0.5},
-    "C06": {"put_uidclash": 10, "put_over": 10, "put_new": 10, "delete": 7, "restart": 2, "evict": 3, "mkcol": 0.3, "proppatch": 0.5},
+    "C06": {"put_recreate": 6, "put_uidclash": 10, "put_over": 10, "put_new": 10, "delete": 7, "restart": 2, "evict": 3, "mkcol": 0.3, "proppatch": 0.5},
     "C07": {"sync": 16, "put_same": 3, "put_revert": 4, "delete": 12, "put_new": 10, "put_over": 10, "mkcol": 0.3, "put_invalid": 0.5,
             "propfind": 0.3, "get": 0.3, "multiget": 0.3, "query": 0.3, "proppatch": 1, "post": 2},
     "C08": {"put_same": 3, "put_revert": 5, "delete": 8, "put_invalid": 3, "put_cond": 4, "get": 2, "propfind": 2},
     "C09": {"put_same": 4, "put_revert": 3, "proppatch": 6, "delete": 6, "put_invalid": 2, "put_cond": 3, "clock": 3},
-    "C14": {"put_invalid": 10, "reupload": 10, "put_new": 10, "put_over": 6, "restart": 2},
+    "C14": {"partial": 4, "put_invalid": 10, "reupload": 10, "put_new": 10, "put_over": 6, "restart": 2},
     "C15": {"proppatch": 20, "mkcol": 4, "mkcalendar": 4, "restart": 4, "evict": 3, "put_new": 3, "put_over": 1, "delete": 1, "post": 0.5},
     "C16": {"put_new": 12, "post": 5, "propfind": 8, "mkcol": 3, "mkcalendar": 3, "delete": 3, "proppatch": 3, "put_invalid": 2},
-    "C17": {"multiget": 16, "put_new": 10, "put_over": 6, "delete": 7, "mkcol": 1},
+    "C17": {"partial": 5, "multiget": 16, "put_new": 10, "put_over": 6, "delete": 7, "mkcol": 1},
 }
 
 
@@ -155,6 +155,9 @@ def make_config(prop, seed, tier):
         "steps": r.randint(8, 25) if tier == "quick" else r.randint(10, 60),
         # separate configuration (DESIGN.md 2.3(4)): injected ENOSPC/EIO inside write requests
         "io_faults": prop in ("C01", "C02", "C08") and r.random() < 0.3,
+        # file mtimes follow the simulated clock, which only moves on clock ops: every
+        # write between two of them carries the same timestamp
+        "sim_mtime": r.random() < 0.5,
     }
     if r.random() < 0.6:
         cfg["preseed"].append({"path": "/user/calendars/bare/", "backend": "bare", "kind": "calendar"})
@@ -534,13 +537,13 @@ class HistRun:
             if k == "put_cond":
                 which = r.random()
                 cond = {}
-                if which < 0.55:
+                if which < 0.5:
                     cond["if_match"] = self.cond_refs(rel)
-                elif which < 0.9:
+                elif which < 0.8:
                     cond["if_none_match"] = self.cond_refs(rel)
                 else:
-                    cond["if_match"] = self.cond_refs(rel)
-                    cond["if_none_match"] = self.cond_refs(rel)
+                    cond["if_match"] = self.cond_refs(rel, r.choice([None, "cur", "star"]))
+                    cond["if_none_match"] = self.cond_refs(rel, r.choice([None, "cur", "star", "list_with_cur"]))
                 op["cond"] = cond
             return op
         if k == "put_cond" or k == "put_cond_new":
@@ -555,6 +558,13 @@ class HistRun:
                 uid = r.choice(ics_names)[:-4]
             body, ct = self.body_for("x" + ext, uid)
             return {"op": "post", "coll": c.path, "body": b2s(body), "ctype": ct}
+        if k == "put_recreate":
+            gone = [t for t in m.tomb if t in self.body_hist and self.find_member(t) and not self.find_live(t)]
+            if not gone:
+                return None
+            rel = r.choice(sorted(set(gone)))
+            c, name = self.find_member(rel)
+            return {"op": "put", "coll": c.path, "name": name, "body": b2s(self.body_hist[rel][-1]), "ctype": "text/calendar" if name.endswith(".ics") else "text/vcard" if name.endswith(".vcf") else "application/octet-stream"}
         if k in ("delete", "delete_cond"):
             pm = self.pick_member()
             if pm is None:
@@ -615,6 +625,9 @@ class HistRun:
                 t = r.choice(tags)
                 if r.random() < (0.4 if self.prop == "C15" else 0.2) and (t in c.props):
                     instrs.append(["remove", t, None])
+                    if r.random() < 0.4:
+                        # "reset, then set" in one request: instructions apply in document order
+                        instrs.append(["set", t, self.gen_prop_value(t, c.backend)])
                 else:
                     instrs.append(["set", t, self.gen_prop_value(t, c.backend)])
             return {"op": "proppatch", "path": c.path, "instrs": instrs}
@@ -635,6 +648,15 @@ class HistRun:
         if k == "multiget":
             c = self.pick_coll(("calendar", "addressbook"))
             return {"op": "report", "report": "multiget", "coll": c.path, "hrefs": self.gen_hrefs(c)}
+        if k == "partial":
+            c = self.pick_coll(("calendar",))
+            if c.kind != "calendar" or not c.members:
+                return None
+            names = [n for n in sorted(c.members) if n.endswith(".ics")]
+            if not names:
+                return None
+            return {"op": "report", "report": "partial", "coll": c.path, "kind": r.choice(["multiget", "query"]), "mode": r.choice(["props", "props", "expand"]),
+                    "names": r.sample(names, min(len(names), r.randint(1, 3)))}
         if k == "query":
             c = self.pick_coll(("calendar",))
             if c.kind != "calendar":
@@ -750,7 +772,7 @@ class HistRun:
             elif k == "dup" and out:
                 out.append(dict(r.choice(out)))
             elif k == "variant" and names:
-                out.append({"rel": c.path + r.choice(names), "enc": r.choice(["full", "lower", "plain"])})
+                out.append({"rel": c.path + r.choice(names), "enc": r.choice(["full", "lower", "plain", "dslash", "dotseg"])})
             elif k == "abs" and names:
                 out.append({"rel": c.path + r.choice(names), "abs": True})
             elif k == "other":
@@ -1142,6 +1164,10 @@ class HistRun:
         elif enc == "lower":
             t = self.world.target(rel)
             t = "".join(ch.lower() if i > 0 and t[i - 1] == "%" or (i > 1 and t[i - 2] == "%") else ch for i, ch in enumerate(t))
+        elif enc in ("dslash", "dotseg"):
+            # another spelling of the same path: a doubled slash or a "." segment before the last segment
+            head, _, last = rel.rpartition("/")
+            t = self.world.prefix.rstrip("/") + urllib.parse.quote(head, safe="/") + ("//" if enc == "dslash" else "/./") + urllib.parse.quote(last)
         else:
             t = self.world.target(rel)
         if h.get("abs"):
@@ -1161,6 +1187,11 @@ class HistRun:
         elif kind == "query":
             r = self.world.req("REPORT", coll, [dav.XML_CT, ("Depth", "1")], dav.calquery_body(dav.cal_filter(op["filter"])), **self.delivery(op))
             ctx.update(resp=r)
+        elif kind == "partial":
+            r = self.world.req("REPORT", coll, [dav.XML_CT, ("Depth", "1")],
+                               dav.partial_data_body(op["kind"], [self.world.target(coll + n) for n in op["names"]], op["mode"]), **self.delivery(op))
+            ctx.update(resp=r)
+            self.count("partial_calendar_data_reports")
         else:
             tok = op["token"]
             toks = self.tokens.setdefault(coll, [])
